@@ -32,6 +32,14 @@ def run(chk):
         stats = fa.gen_stats(r, ubm, n)
         y = [k % K for k in range(n)]
         r.shuffle(y)                                  # unsorted labels, partitions mix classes
+        if rd % 3 == 1:
+            # one class never occupies the last Gaussian (hard zero counts in all its sessions) while the other classes do
+            for q_, lab_ in zip(stats, y):
+                if lab_ == 0:
+                    q_.n = np.array(q_.n, dtype=float)
+                    q_.sum_px = np.array(q_.sum_px, dtype=float)
+                    q_.sum_pxx = np.array(q_.sum_pxx, dtype=float)
+                    q_.n[-1], q_.sum_px[-1], q_.sum_pxx[-1] = 0.0, 0.0, 0.0
         ctx = {"ubm_means": hexlist(ubm.means), "ubm_vars": hexlist(ubm.variances), "stats": fa.dump_stats(stats), "labels": y}
         nparts = list(range(1, n + 1)) if chk.tier == "thorough" else sorted(set([1, 2, 3, n - 1, n]))
         # uneven partition sizes (from_sequence only makes equal ones): built from delayed lists
